@@ -60,10 +60,24 @@ impl BlockDecoder {
                 self.decoder = Some(Box::new(codec));
             }
             oti::FECEncodingID::ReedSolomonGF2M => {
-                log::warn!("Not implemented")
+                return Err(FluteError::new("Reed Solomon GF2M is not implemented"));
             }
             oti::FECEncodingID::RaptorQ => {
                 if let Some(SchemeSpecific::RaptorQ(scheme)) = oti.scheme_specific.as_ref() {
+                    // The OTI comes from the network, the raptorq crate asserts on its parameters
+                    let symbol_length = oti.encoding_symbol_length as usize;
+                    let alignment = scheme.symbol_alignment as usize;
+                    if nb_source_symbols == 0
+                        || nb_source_symbols > 56403
+                        || symbol_length == 0
+                        || alignment == 0
+                        || symbol_length % alignment != 0
+                        || scheme.sub_blocks_length == 0
+                        || scheme.sub_blocks_length as usize > symbol_length / alignment
+                    {
+                        return Err(FluteError::new("Invalid RaptorQ FEC parameters"));
+                    }
+
                     let codec = fec::raptorq::RaptorQDecoder::new(
                         sbn,
                         nb_source_symbols as usize,
@@ -78,6 +92,11 @@ impl BlockDecoder {
             oti::FECEncodingID::Raptor => {
                 if oti.scheme_specific.is_none() {
                     return Err(FluteError::new("Raptor Scheme not found"));
+                }
+
+                // The OTI comes from the network, Raptor supports up to 8192 source symbols
+                if nb_source_symbols == 0 || nb_source_symbols > 8192 {
+                    return Err(FluteError::new("Invalid Raptor FEC parameters"));
                 }
 
                 let codec = fec::raptor::RaptorDecoder::new(nb_source_symbols as usize, block_size);
